@@ -440,9 +440,15 @@ func cmdCheck(args []string) int {
 		}
 		cov := solveCovers(fr, opts)
 		for _, n := range sortedKeys(cov) {
-			if cov[n] == "unreachable" {
+			if cov[n] == "unreachable" || cov[n] == "contradictory" {
 				if n == "vacuity" {
 					violate(k, "vacuity", "the precondition of the contract is unsatisfiable", "", "", "", false)
+				} else if bn, sub, isSub := strings.Cut(strings.TrimPrefix(n, "cover:"), ":"); isSub {
+					// a conditional relay: the condition may legitimately be implied or excluded by the
+					// behaviour's assumptions, so only a contradiction among the hypotheses counts
+					if sp := e.funcSpecs[k]; cov[n] == "contradictory" && sp != nil && behaviourTagged(sp, bn, *prop) {
+						violate(k, n, "every path on which this conditional relay is "+map[bool]string{true: "emitted", false: "suppressed"}[strings.HasPrefix(sub, "when")]+" has contradictory hypotheses (its obligations hold vacuously)", "", "", "", false)
+					}
 				} else if sp := e.funcSpecs[k]; sp != nil && behaviourTagged(sp, strings.TrimPrefix(n, "cover:"), *prop) {
 					violate(k, n, "no path satisfies the assumptions of this behaviour (vacuous)", "", "", "", false)
 				}
